@@ -3,12 +3,14 @@ C02 — all wire renderings of one body parse to the same, faithful tree (DESIGN
 
 `Renders false` is the full grammar of DESIGN 6.2; `Renders true` adds the two local side conditions
 G2 (no whitespace between `]]>` and the element's own end tag) and G3 (the last child of an aggregate is not a
-data element bearing the aggregate's tag); `cdSafe` is G1 (at most one `]]>` per line).
+data element bearing the aggregate's tag).  (The former guard G1 — one `]]>` per line — is gone since /repo's
+`fix: CDATA element data ends at the first ]]>`; its witness is now a positive example, `C02_G1_repaired`.)
 
-* `C02_complete_full`  (∀ full-grammar renderings) is FALSE on the pinned parser: `C02_complete_full_false`
-  (greedy `.+`), and `C02_G2_needed`, `C02_G3_needed` show the other two guards cannot be dropped either.
-* `C02_complete_partial`: every strict, `cdSafe` rendering — arbitrary nesting, every end-tag / whitespace /
-  CDATA choice — parses to exactly the rendered tree.  `C02_complete_doc`: also with whitespace around the root.
+* `C02_complete_full`  (∀ full-grammar renderings) is still FALSE: `C02_complete_full_false` (G2 witness, now a
+  `ParseError`), `C02_G3_needed` (G3 witness, now a `ParseError` as well: valid renderings are rejected, no longer
+  mis-read).
+* `C02_complete_partial`: every strict rendering — arbitrary nesting, every end-tag / whitespace / CDATA choice —
+  parses to exactly the rendered tree.  `C02_complete_doc`: also with whitespace around the root.
 * corollaries `C02_unique`, `C02_same`.
 -/
 import OfxProofs.Lemmas.Builder
@@ -21,7 +23,10 @@ def run (s : Str) (st : St) : PyM St := feedToks (toks s) st
 
 theorem run_nil (st : St) : run [] st = .ok st := rfl
 
-theorem parse_eq (s : Str) : parse s = (match run s St.init with | .ok st => .ok st.close | .error e => .error e) := rfl
+theorem parse_eq (s : Str) : parse s =
+    (match run s St.init with
+     | .ok st => (match st.close with | .ok r => .ok (some r) | .error e => .error e)
+     | .error e => .error e) := rfl
 
 /-- one token: if the regex matches `tok` at the front and the loop body succeeds, continue after it -/
 theorem run_tok (tok rest : Str) (m : Match) (st st' : St) (hne : tok ≠ [])
@@ -189,13 +194,12 @@ theorem emit_stack_ne (c : Tree) (st : St) (h : st.stack ≠ []) : (st.emit c).s
 
 /-- the statement proved of one element: its rendering, the whitespace after it and a continuation -/
 def ElemOk (t : Tree) (s : Str) : Prop :=
-  ∀ (w rest : Str) (st : St), ws w = true → Cont (leafTag t) rest → cdSafe (s ++ (w ++ rest)) = true → st.CanStart →
+  ∀ (w rest : Str) (st : St), ws w = true → Cont (leafTag t) rest → st.CanStart →
     run (s ++ (w ++ rest)) st = run rest (st.emit t)
 
 def ListOk (cs : List Tree) (body : Str) : Prop :=
   ∀ (rest : Str) (st : St), st.stack ≠ [] → After rest →
     (∀ c, cs.getLast? = some c → ∀ tg, leafTag c = some tg → dropPrefix (endTag tg) rest = none) →
-    cdSafe (body ++ rest) = true →
     run (body ++ rest) st = run rest (addKids cs st)
 
 theorem ws_notLt {w : Str} (hw : ws w = true) : ∀ c ∈ w, notLt c = true :=
@@ -211,13 +215,17 @@ theorem cdataOk_notNl {d : Str} (h : cdataOk d = true) : ∀ c ∈ d, notNl c = 
   simp only [cdataOk, Bool.and_eq_true, List.all_eq_true] at h
   exact h.1.2
 
+theorem cdataOk_noClose {d : Str} (h : cdataOk d = true) : containsSub cdataClose d = false := by
+  simp only [cdataOk, Bool.and_eq_true] at h
+  simpa using h.2
+
 theorem tagChars {t : Str} (ht : tagOk t = true) : t ≠ [] ∧ ∀ c ∈ t, isTagChar c = true := by
   obtain ⟨c, cs, rfl, -, hn⟩ := tagOk_cons ht
   exact ⟨by simp, fun x hx => isTagChar_of_name (hn x hx)⟩
 
 theorem leafOpen_ok (t d w1 : Str) (ht : tagOk t = true) (hd : dataOk d = true) (h1 : ws w1 = true) :
     ElemOk (Tree.leaf t d) (startTag t ++ (w1 ++ d)) := by
-  intro w rest st hw hc _ hst
+  intro w rest st hw hc hst
   obtain ⟨hdne, hdlt, hdtr⟩ := dataOk_parts hd
   obtain ⟨htne, htc⟩ := tagChars ht
   have hx : ∀ c ∈ w1 ++ (d ++ w), notLt c = true := by
@@ -238,7 +246,7 @@ theorem leafOpen_ok (t d w1 : Str) (ht : tagOk t = true) (hd : dataOk d = true) 
 
 theorem leafClosed_ok (t d w1 w2 : Str) (ht : tagOk t = true) (hd : dataOk d = true) (h1 : ws w1 = true)
     (h2 : ws w2 = true) : ElemOk (Tree.leaf t d) (startTag t ++ (w1 ++ (d ++ (w2 ++ endTag t)))) := by
-  intro w rest st hw hc _ hst
+  intro w rest st hw hc hst
   obtain ⟨hdne, hdlt, hdtr⟩ := dataOk_parts hd
   obtain ⟨htne, htc⟩ := tagChars ht
   have hx : ∀ c ∈ w1 ++ (d ++ w2), notLt c = true := by
@@ -258,12 +266,10 @@ theorem leafClosed_ok (t d w1 w2 : Str) (ht : tagOk t = true) (hd : dataOk d = t
 
 theorem cdataOpen_ok (t d : Str) (ht : tagOk t = true) (hd : dataOk d = true) (hcd : cdataOk d = true) :
     ElemOk (Tree.leaf t d) (startTag t ++ cdataOf d) := by
-  intro w rest st hw hc hsafe hst
+  intro w rest st hw hc hst
   obtain ⟨hdne, -, -⟩ := dataOk_parts hd
   obtain ⟨htne, htc⟩ := tagChars ht
-  have hg : lineHasClose (w ++ rest) = false := by
-    apply cdSafe_after (startTag t ++ (cdataOpen ++ d))
-    simpa [cdataOf] using hsafe
+  have hg : containsSub cdataClose d = false := cdataOk_noClose hcd
   have hcl : dropPrefix (endTag t) (w ++ rest) = none :=
     dropPrefix_ws_or _ w rest ⟨_, rfl⟩ hw (hc.2 t rfl)
   have hm := matchHere_cdata_open t d w rest htne htc hdne (cdataOk_notNl hcd) (ws_notLt hw) (after_stops hc.1) hg hcl
@@ -274,12 +280,10 @@ theorem cdataOpen_ok (t d : Str) (ht : tagOk t = true) (hd : dataOk d = true) (h
 
 theorem cdataClosed_ok (t d : Str) (ht : tagOk t = true) (hd : dataOk d = true) (hcd : cdataOk d = true) :
     ElemOk (Tree.leaf t d) (startTag t ++ (cdataOf d ++ ([] ++ endTag t))) := by
-  intro w rest st hw hc hsafe hst
+  intro w rest st hw hc hst
   obtain ⟨hdne, -, -⟩ := dataOk_parts hd
   obtain ⟨htne, htc⟩ := tagChars ht
-  have hg : lineHasClose (endTag t ++ (w ++ rest)) = false := by
-    apply cdSafe_after (startTag t ++ (cdataOpen ++ d))
-    simpa [cdataOf] using hsafe
+  have hg : containsSub cdataClose d = false := cdataOk_noClose hcd
   have hm := matchHere_cdata_closed t d w rest htne htc hdne (cdataOk_notNl hcd) (ws_notLt hw) (after_stops hc.1) hg
   have e : (startTag t ++ (cdataOf d ++ ([] ++ endTag t))) ++ (w ++ rest)
       = startTag t ++ (cdataOf d ++ (endTag t ++ (w ++ rest))) := by simp
@@ -299,7 +303,7 @@ theorem addKids_push (t : Str) (cs : List Tree) (st : St) :
 theorem agg_ok (t w0 : Str) (cs : List Tree) (body : Str) (ht : tagOk t = true) (h0 : ws w0 = true)
     (hl : RendersList true cs body) (hself : ∀ c, cs.getLast? = some c → leafTag c ≠ some t)
     (ih : ListOk cs body) : ElemOk (Tree.agg t cs) (startTag t ++ (w0 ++ (body ++ endTag t))) := by
-  intro w rest st hw hc hsafe hst
+  intro w rest st hw hc hst
   obtain ⟨htne, htc⟩ := tagChars ht
   obtain ⟨hshape, hlastOk⟩ := rendersList_facts hl
   rcases hshape with ⟨rfl, rfl⟩ | ⟨-, hbody⟩
@@ -322,16 +326,13 @@ theorem agg_ok (t w0 : Str) (cs : List Tree) (body : Str) (ht : tagOk t = true) 
     rw [run_tok' _ (startTag t ++ w0) (body ++ (endTag t ++ (w ++ rest))) _ st (st.push t) (by simp) (by simp [startTag])
       hm1 rfl (step_open t _ _ st ht (groom_ws w0 h0) hst)]
     -- the children
-    have hsafe2 : cdSafe (body ++ (endTag t ++ (w ++ rest))) = true := by
-      apply cdSafe_append_right (startTag t ++ w0)
-      simpa using hsafe
     have hlast : ∀ c, cs.getLast? = some c → ∀ tg, leafTag c = some tg →
         dropPrefix (endTag tg) (endTag t ++ (w ++ rest)) = none := by
       intro c hcl tg htg
       apply dropPrefix_endTag_ne tg t _ (hlastOk c hcl tg htg) ht
       intro e; subst e; exact hself c hcl htg
     rw [ih (endTag t ++ (w ++ rest)) (st.push t) (by simp [St.push])
-      (Or.inr (Or.inr (startsEnd_endTag t _ ht))) hlast hsafe2]
+      (Or.inr (Or.inr (startsEnd_endTag t _ ht))) hlast]
     -- the end tag
     have htc' : ∀ c ∈ '/' :: t, isTagChar c = true := by
       intro c hc'
@@ -347,29 +348,27 @@ theorem agg_ok (t w0 : Str) (cs : List Tree) (body : Str) (ht : tagOk t = true) 
     exact end_push t none cs st
 
 theorem list_nil_ok : ListOk [] [] := by
-  intro rest st _ _ _ _
+  intro rest st _ _ _
   simp [addKids_nil]
 
 theorem list_cons_ok (c : Tree) (cs : List Tree) (s w s' : Str) (_hr : Renders true c s) (hw : ws w = true)
     (hl : RendersList true cs s') (ih1 : ElemOk c s) (ih2 : ListOk cs s') : ListOk (c :: cs) (s ++ (w ++ s')) := by
-  intro rest st hst haft hlast hsafe
+  intro rest st hst haft hlast
   obtain ⟨hshape, -⟩ := rendersList_facts hl
   have e : (s ++ (w ++ s')) ++ rest = s ++ (w ++ (s' ++ rest)) := by simp
-  rw [e] at hsafe ⊢
+  rw [e]
   have hcont : Cont (leafTag c) (s' ++ rest) := by
     rcases hshape with ⟨rfl, rfl⟩ | ⟨-, hs'⟩
     · exact ⟨by simpa using haft, fun tg htg => by simpa using hlast c rfl tg htg⟩
     · have := startsName_append rest hs'
       exact ⟨Or.inr (Or.inl this), fun tg _ => startsName_noEnd tg this⟩
-  rw [ih1 w (s' ++ rest) st hw hcont hsafe (canStart_of_stack hst)]
-  have hsafe2 : cdSafe (s' ++ rest) = true := by
-    apply cdSafe_append_right (s ++ w); simpa using hsafe
+  rw [ih1 w (s' ++ rest) st hw hcont (canStart_of_stack hst)]
   have hlast2 : ∀ c', cs.getLast? = some c' → ∀ tg, leafTag c' = some tg → dropPrefix (endTag tg) rest = none := by
     intro c' hc' tg htg
     cases cs with
     | nil => cases hc'
     | cons d ds => exact hlast c' (by rw [List.getLast?_cons_cons]; exact hc') tg htg
-  rw [ih2 rest (st.emit c) (emit_stack_ne c st hst) haft hlast2 hsafe2, addKids_emit c cs st hst]
+  rw [ih2 rest (st.emit c) (emit_stack_ne c st hst) haft hlast2, addKids_emit c cs st hst]
 
 /-- every strict rendering of an element, followed by whitespace and an admissible continuation, has exactly
     the effect of handing the rendered tree to the builder -/
@@ -407,40 +406,33 @@ theorem rendersList_ok {cs : List Tree} {body : Str} (h : RendersList true cs bo
 /-- the full-strength statement: every rendering of the grammar of DESIGN 6.2 parses to the rendered tree -/
 def C02_complete_full : Prop := ∀ t s, Renders false t s → parse s = .ok (some t)
 
-/-- **C02_complete_partial**: every strict rendering with at most one `]]>` per line parses to the rendered tree -/
-theorem C02_complete_partial (t : Tree) (s : Str) (h : Renders true t s) (hsafe : cdSafe s = true) :
-    parse s = .ok (some t) := by
-  have := renders_ok h [] [] St.init rfl ⟨Or.inl rfl, fun _ _ => rfl⟩ (by simpa using hsafe) (Or.inr rfl)
+/-- **C02_complete_partial**: every strict rendering parses to the rendered tree -/
+theorem C02_complete_partial (t : Tree) (s : Str) (h : Renders true t s) : parse s = .ok (some t) := by
+  have := renders_ok h [] [] St.init rfl ⟨Or.inl rfl, fun _ _ => rfl⟩ (Or.inr rfl)
   rw [parse_eq]
   simp only [List.append_nil] at this
   rw [this, run_nil]
   rfl
 
 /-- … and so does the same body with whitespace around the root -/
-theorem C02_complete_doc (t : Tree) (s : Str) (h : RendersDoc true t s) (hsafe : cdSafe s = true) :
-    parse s = .ok (some t) := by
+theorem C02_complete_doc (t : Tree) (s : Str) (h : RendersDoc true t s) : parse s = .ok (some t) := by
   obtain ⟨w1, s0, w2, h1, h2, hr, rfl⟩ := h
-  have hs0 : cdSafe (s0 ++ (w2 ++ [])) = true := by
-    apply cdSafe_append_right w1; simpa using hsafe
-  have := renders_ok hr w2 [] St.init h2 ⟨Or.inl rfl, fun _ _ => rfl⟩ hs0 (Or.inr rfl)
+  have := renders_ok hr w2 [] St.init h2 ⟨Or.inl rfl, fun _ _ => rfl⟩ (Or.inr rfl)
   rw [parse_eq, run_skip w1 _ _ h1]
   simp only [List.append_nil] at this
   rw [this, run_nil]
   rfl
 
 /-- a body is a rendering of at most one tree -/
-theorem C02_unique (t t' : Tree) (s : Str) (h : Renders true t s) (h' : Renders true t' s) (hsafe : cdSafe s = true) :
-    t = t' := by
-  have a := C02_complete_partial t s h hsafe
-  have b := C02_complete_partial t' s h' hsafe
+theorem C02_unique (t t' : Tree) (s : Str) (h : Renders true t s) (h' : Renders true t' s) : t = t' := by
+  have a := C02_complete_partial t s h
+  have b := C02_complete_partial t' s h'
   rw [a] at b
   injection b with b; injection b
 
 /-- all renderings of one tree parse alike -/
-theorem C02_same (t : Tree) (s₁ s₂ : Str) (h₁ : Renders true t s₁) (h₂ : Renders true t s₂)
-    (g₁ : cdSafe s₁ = true) (g₂ : cdSafe s₂ = true) : parse s₁ = parse s₂ := by
-  rw [C02_complete_partial t s₁ h₁ g₁, C02_complete_partial t s₂ h₂ g₂]
-
+theorem C02_same (t : Tree) (s₁ s₂ : Str) (h₁ : Renders true t s₁) (h₂ : Renders true t s₂) : parse s₁ = parse s₂ := by
+  rw [C02_complete_partial t s₁ h₁, C02_complete_partial t s₂ h₂]
 
 /-! ### the full-strength statement fails on the pinned parser; each guard is needed -/
 
@@ -462,22 +454,9 @@ theorem witnessG1_renders (strict : Bool) : Renders strict witnessG1Tree witness
   refine RendersList.cons _ _ _ [] _ (Renders.cdataOpen tB dx (by decide) (by decide) (by decide)) (by decide) ?_
   exact RendersList.cons _ _ _ [] _ (Renders.cdataOpen tC dy (by decide) (by decide) (by decide)) (by decide) RendersList.nil
 
-theorem witnessG1_parse :
-    parse witnessG1 = .ok (some (Tree.agg tA [Tree.leaf tB "x]]><C><![CDATA[y".toList])) := by rfl
-
-/-- **C02_complete_full_false**: two CDATA sections on one line are merged (greedy `.+`) -/
-theorem C02_complete_full_false : ¬ C02_complete_full := by
-  intro h
-  have := h _ _ (witnessG1_renders false)
-  rw [witnessG1_parse] at this
-  simp [witnessG1Tree, Tree.agg] at this
-
-/-- the witness is even a *strict* rendering: what fails is G1 alone -/
-theorem C02_G1_needed : ¬ ∀ t s, Renders true t s → parse s = .ok (some t) := by
-  intro h
-  have := h _ _ (witnessG1_renders true)
-  rw [witnessG1_parse] at this
-  simp [witnessG1Tree, Tree.agg] at this
+/-- the witness of the former guard G1 (greedy CDATA) now parses to the rendered tree -/
+theorem C02_G1_repaired : parse witnessG1 = .ok (some witnessG1Tree) :=
+  C02_complete_partial _ _ (witnessG1_renders true)
 
 /-- `<A><B><![CDATA[x]]> </B></A>`: whitespace between `]]>` and the element's own end tag -/
 def witnessG2 : Str := "<A><B><![CDATA[x]]> </B></A>".toList
@@ -491,11 +470,12 @@ theorem witnessG2_renders : Renders false (Tree.agg tA [Tree.leaf tB dx]) witnes
     (Renders.cdataClosed tB dx [' '] (by decide) (by decide) (by decide) (by decide) (by intro h; cases h)) (by decide)
     RendersList.nil
 
-/-- G2 cannot be dropped: a full-grammar, `cdSafe` rendering that is rejected (`IndexError`) -/
-theorem C02_G2_needed : ¬ ∀ t s, Renders false t s → cdSafe s = true → parse s = .ok (some t) := by
+/-- **C02_complete_full_false**: a full-grammar rendering that is rejected — the blank after `]]>` is taken as tail,
+    `</B>` is then read as the end tag of the enclosing aggregate and does not match (`ParseError`) -/
+theorem C02_complete_full_false : ¬ C02_complete_full := by
   intro h
-  have := h _ _ witnessG2_renders (by decide)
-  have e : parse witnessG2 = .error .index := by rfl
+  have := h _ _ witnessG2_renders
+  have e : parse witnessG2 = .error .parse := by rfl
   rw [e] at this
   cases this
 
@@ -515,22 +495,22 @@ theorem witnessG3_renders : Renders false witnessG3Tree witnessG3 := by
   · exact RendersList.cons _ _ _ [] _ (Renders.leafOpen tC ['2'] [] (by decide) (by decide) (by decide)) (by decide)
       RendersList.nil
 
-/-- G3 cannot be dropped: the sibling `C` is re-parented into `B` -/
-theorem C02_G3_needed : ¬ ∀ t s, Renders false t s → cdSafe s = true → parse s = .ok (some t) := by
+/-- G3 cannot be dropped either: `</B>` is taken as the data element's own end tag, aggregate `B` stays open and
+    `</A>` does not match it (`ParseError`) -/
+theorem C02_G3_needed : ¬ ∀ t s, Renders false t s → parse s = .ok (some t) := by
   intro h
-  have := h _ _ witnessG3_renders (by decide)
-  have e : parse witnessG3 =
-      .ok (some (Tree.agg tA [Tree.agg tB [Tree.leaf tB ['1'], Tree.leaf tC ['2']]])) := by rfl
+  have := h _ _ witnessG3_renders
+  have e : parse witnessG3 = .error .parse := by rfl
   rw [e] at this
-  simp [witnessG3Tree, Tree.agg] at this
+  cases this
 
 /-- the guards of `C02_complete_partial` are satisfiable by a non-trivial body: nested aggregates, an SGML leaf, an XML
     leaf with padding, a CDATA leaf with end tag, an empty aggregate, line breaks -/
 def exampleBody : Str := "<A>\n <B>1 2\n <C.1> a&amp;b </C.1>\r\n <B><D><![CDATA[x>y]]></D>\n<E></E></B>\n</A>".toList
 
-example : ∃ t, Renders true t exampleBody ∧ cdSafe exampleBody = true := by
+example : ∃ t, Renders true t exampleBody := by
   refine ⟨Tree.agg tA [Tree.leaf tB "1 2".toList, Tree.leaf "C.1".toList "a&amp;b".toList,
-    Tree.agg tB [Tree.leaf ['D'] "x>y".toList, Tree.agg ['E'] []]], ?_, by decide⟩
+    Tree.agg tB [Tree.leaf ['D'] "x>y".toList, Tree.agg ['E'] []]], ?_⟩
   have e : exampleBody = startTag tA ++ ("\n ".toList ++ (
       ((startTag tB ++ ([] ++ "1 2".toList)) ++ ("\n ".toList ++
       ((startTag "C.1".toList ++ ([' '] ++ ("a&amp;b".toList ++ ([' '] ++ endTag "C.1".toList)))) ++ ("\r\n ".toList ++
@@ -591,9 +571,8 @@ mutual
       exact RendersList.cons _ _ _ _ _ (render_renders strict k h.1) (ok_after strict k h.1) (renders_list strict ks h.2)
 end
 
-/-- every strict, `cdSafe` output of the renderer parses back to the tree it was rendered from -/
-theorem C02_render_roundtrip (r : RTree) (h : r.ok true = true) (hsafe : cdSafe r.str = true) :
-    parse r.str = .ok (some r.tree) :=
-  C02_complete_partial _ _ (render_renders true r h) hsafe
+/-- every strict output of the renderer parses back to the tree it was rendered from -/
+theorem C02_render_roundtrip (r : RTree) (h : r.ok true = true) : parse r.str = .ok (some r.tree) :=
+  C02_complete_partial _ _ (render_renders true r h)
 
 end Ofx.C02
